@@ -284,7 +284,7 @@ type donorRef struct {
 // donorIndex lists, per proto type, the nodes of the pristine trees whose
 // message can be cloned, donors first.
 func donorIndex(p *Pool) map[string][]donorRef {
-	order := []string{"D1", "D2", "M1", "MR4", "MR1", "MR2", "M0", "MR3"}
+	order := []string{"D1", "D2", "M1", "MR4", "MR1", "MR2", "M2", "M0", "MR3"}
 	idx := map[string][]donorRef{}
 	for _, name := range order {
 		a, ok := p.Ann[name]
